@@ -41,6 +41,9 @@ def protoOp (op : String) (j : Json) : Except String Json := do
   | "proto.norm" =>
     let s : Sys ← fromJson? (← fld j "sys")
     return toJson s.norm
+  | "proto.chain" =>
+    let ids : List Nat ← fromJson? (← fld j "ids")
+    return toJson ((chainOf ids).map fun (a, b) => [a, b])
   | "proto.echo" =>
     let s : Sys ← fromJson? (← fld j "sys")
     return toJson s
